@@ -88,12 +88,12 @@ func c10Check(x *engine.Exec) []engine.Failure {
 	st := nodeStake(x.Next)
 	pst := nodeStake(x.Prev)
 	// native bonded stake as the system defines it: total bonded minus the (truncated) alliance-bonded amount
-	alliance := math.ZeroInt()
+	allianceSum := new(big.Rat)
 	rateNot1 := false
 	withMod := 0
 	for v := range st.Bonded {
 		if st.Bonded[v] {
-			alliance = alliance.Add(math.NewIntFromBigInt(world.Floor(st.ModTokens[v])))
+			allianceSum.Add(allianceSum, st.ModTokens[v])
 			if st.ModShares[v].Sign() > 0 {
 				withMod++
 			}
@@ -102,6 +102,7 @@ func c10Check(x *engine.Exec) []engine.Failure {
 			rateNot1 = true
 		}
 	}
+	alliance := math.NewIntFromBigInt(world.Floor(allianceSum))
 	N := world.RatInt(st.TotalBonded.Sub(alliance))
 	tolerance := ratI(2)
 	sumW := new(big.Rat)
